@@ -37,6 +37,24 @@ func c25(p *an.Prog, r *an.R, tier string) {
 				acc[se.Sel.Name] = true
 			}
 		}
+		// s.X = s.X + o.X (either operand order)
+		if ok && as.Tok == token.ASSIGN && len(as.Lhs) == 1 && len(as.Rhs) == 1 {
+			se, isS := ast.Unparen(as.Lhs[0]).(*ast.SelectorExpr)
+			be, isB := ast.Unparen(as.Rhs[0]).(*ast.BinaryExpr)
+			if isS && isB && be.Op == token.ADD && info.Selections[se] != nil {
+				lhs := types.ExprString(se)
+				x, y := ast.Unparen(be.X), ast.Unparen(be.Y)
+				other := y
+				if types.ExprString(y) == lhs {
+					other = x
+				} else if types.ExprString(x) != lhs {
+					return true
+				}
+				if os, isO := other.(*ast.SelectorExpr); isO && os.Sel.Name == se.Sel.Name {
+					acc[se.Sel.Name] = true
+				}
+			}
+		}
 		return true
 	})
 	zu := an.FieldUses(info, zeroD.Decl.Body, statsT)
